@@ -386,3 +386,127 @@ func (vc *FnVC) taintObligations() []*Obligation {
 	sort.Slice(out, func(i, j int) bool { return out[i].Name < out[j].Name })
 	return out
 }
+
+// markObligations (C12, part 2): in a visitor that descends into the children of a value, every
+// error obtained from the visit of a child is passed through markSchemaErrorKey /
+// markSchemaErrorIndex - with the very key or index the child was taken from - before it is
+// returned or collected. Together with the contracts of the two marking functions (they append the
+// key to the error's reverse path) and of JSONPointer (it reverses that path) this is what makes the
+// pointer of a reported error resolve inside the validated value. Computed on the SSA of the
+// function (option `marks-child-errors`): one obligation per child visit.
+func (vc *FnVC) markObligations() []*Obligation {
+	if vc.fc == nil || vc.fc.Options["marks-child-errors"] == "" {
+		return nil
+	}
+	var out []*Obligation
+	n := 0
+	add := func(pos token.Pos, bad bool, what string) {
+		n++
+		o := &Obligation{Name: fmt.Sprintf("%s/label/child-error-marked#%d", vc.shortName(), n), Class: "label", Func: vc.shortName(), Tags: vc.fnTags(), Expect: "unsat", Src: "marks-child-errors", Pos: vc.posOf(pos), vc: vc}
+		o.Result = &SolveResult{Status: "unsat", Solver: "ssa-flow"}
+		if bad {
+			o.Result = &SolveResult{Status: "sat", Solver: "ssa-flow", Output: what}
+		}
+		out = append(out, o)
+	}
+	// the key a child value was taken with: value[k] (map lookup) or the range element of index i
+	childKey := func(v ssa.Value) ssa.Value {
+		for i := 0; i < 6; i++ {
+			switch x := v.(type) {
+			case *ssa.Lookup:
+				return x.Index
+			case *ssa.UnOp:
+				if ia, ok := x.X.(*ssa.IndexAddr); ok && x.Op == token.MUL {
+					return ia.Index
+				}
+				return nil
+			case *ssa.Extract:
+				v = x.Tuple
+			case *ssa.Phi:
+				return nil
+			default:
+				return nil
+			}
+		}
+		return nil
+	}
+	for _, b := range vc.fn.Blocks {
+		for _, ins := range b.Instrs {
+			call, ok := ins.(*ssa.Call)
+			if !ok {
+				continue
+			}
+			callee := call.Call.StaticCallee()
+			if callee == nil || callee.Name() != "visitJSON" || len(call.Call.Args) < 3 {
+				continue
+			}
+			key := childKey(call.Call.Args[2])
+			if key == nil {
+				// not a visit of a child taken by key or index (e.g. the value itself)
+				continue
+			}
+			// follow the error: every use that returns it or appends it must come after a mark call
+			// with this key
+			seen := map[ssa.Value]bool{}
+			var bad string
+			var follow func(v ssa.Value, marked bool)
+			follow = func(v ssa.Value, marked bool) {
+				if seen[v] && !marked {
+					return
+				}
+				if !marked {
+					seen[v] = true
+				}
+				refs := v.Referrers()
+				if refs == nil {
+					return
+				}
+				for _, r := range *refs {
+					switch u := r.(type) {
+					case *ssa.Call:
+						cf := u.Call.StaticCallee()
+						if cf != nil && (cf.Name() == "markSchemaErrorKey" || cf.Name() == "markSchemaErrorIndex") && len(u.Call.Args) == 2 && u.Call.Args[0] == v {
+							if u.Call.Args[1] != key {
+								bad = "the error of the child visit at " + vc.posOf(call.Pos()) + " is marked with a different key than the one the child was taken with"
+							}
+							continue // the marked result is a new value: fine from here on
+						}
+						if b, isB := u.Call.Value.(*ssa.Builtin); isB && b.Name() == "append" && !marked {
+							bad = "the error of the child visit at " + vc.posOf(call.Pos()) + " is collected unmarked at " + vc.posOf(u.Pos())
+						}
+					case *ssa.Return:
+						if !marked {
+							bad = "the error of the child visit at " + vc.posOf(call.Pos()) + " is returned unmarked at " + vc.posOf(u.Pos())
+						}
+					case *ssa.Phi:
+						follow(u, marked)
+					case *ssa.Extract:
+						follow(u, marked)
+					case *ssa.TypeAssert:
+						follow(u, marked)
+					case *ssa.ChangeInterface:
+						follow(u, marked)
+					case *ssa.MakeInterface:
+						follow(u, marked)
+					case *ssa.Slice:
+						follow(u, marked)
+					case *ssa.Store:
+						if !marked {
+							// stored into a local: follow loads of that cell
+							if al, ok := u.Addr.(*ssa.Alloc); ok && u.Val == v {
+								for _, r2 := range *al.Referrers() {
+									if ld, ok := r2.(*ssa.UnOp); ok && ld.Op == token.MUL {
+										follow(ld, marked)
+									}
+								}
+							}
+						}
+					}
+				}
+			}
+			follow(call, false)
+			add(call.Pos(), bad != "", bad)
+		}
+	}
+	return out
+}
